@@ -23,6 +23,23 @@ def short_fn(name):
     return "::".join(parts[-2:])
 
 
+def _split_top(s):
+    """Split a descriptor argument list at top-level commas."""
+    out, depth, cur = [], 0, []
+    for ch in s:
+        if ch in "([{":
+            depth += 1
+        elif ch in ")]}":
+            depth -= 1
+        if ch == "," and depth == 0:
+            out.append("".join(cur))
+            cur = []
+        else:
+            cur.append(ch)
+    out.append("".join(cur))
+    return out
+
+
 class Prov:
     def __init__(self, fn):
         self.fn = fn
@@ -110,6 +127,11 @@ class Prov:
                         continue
                     s = "overflowed(%s)" % s
                     continue
+                if e.get("owner") == "tuple" and s.startswith("tuple(") and s.endswith(")") and e["name"].isdigit():
+                    parts = _split_top(s[6:-1])
+                    if int(e["name"]) < len(parts):
+                        s = parts[int(e["name"])]
+                        continue
                 s = "%s.%s" % (s, e["name"])
             elif k == "index":
                 s = "%s[%s]" % (s, self.local(e["local"], depth + 1, seen))
